@@ -48,6 +48,10 @@ struct ad_round {
     std::optional<cocls::promise<int>> src_prom;
     std::optional<cocls::promise<void>> src_prom_void;
     std::optional<cocls::promise<tracked>> src_prom_tracked;
+    // the awaited operation may also return future<int&> where the adapter is declared for int (allowed: ReturnsFuture accepts the
+    // reference form, the result then refers to the resolver's object)
+    bool ref_source = false; int ref_target = 0;
+    std::optional<cocls::promise<int &>> src_prom_ref;
     std::atomic<int> prom_ready{0};
     std::atomic<int> cb_calls{0};
     outcome seen;
@@ -81,6 +85,13 @@ inline cocls::future<int> ad_make_src(ad_round &X) {
     }
     return cocls::future<int>([&](cocls::promise<int> p) { X.src_prom.emplace(std::move(p)); X.prom_ready.store(1, std::memory_order_release); });
 }
+inline cocls::future<int &> ad_make_src_ref(ad_round &X) {
+    X.ref_target = X.src_value();
+    return cocls::future<int &>([&](cocls::promise<int &> p) {
+        if (X.timing == AT_BEFORE) { if (X.what == FA_VALUE) p(X.ref_target); else if (X.what == FA_EXC) p(vf::make_exc(55)); else p(cocls::drop); }
+        else { X.src_prom_ref.emplace(std::move(p)); X.prom_ready.store(1, std::memory_order_release); }
+    });
+}
 inline cocls::future<void> ad_make_src_void(ad_round &X) {
     if (X.timing == AT_BEFORE) {
         if (X.what == FA_VALUE) return cocls::future<void>::set_value();
@@ -99,6 +110,7 @@ inline cocls::future<tracked> ad_make_src_tracked(ad_round &X) {
 }
 inline void ad_resolve(ad_round &X) {
     if (X.src_prom) { auto &p = *X.src_prom; if (X.what == FA_VALUE) p(X.src_value()); else if (X.what == FA_EXC) p(vf::make_exc(55)); else p(cocls::drop); }
+    if (X.src_prom_ref) { auto &p = *X.src_prom_ref; if (X.what == FA_VALUE) p(X.ref_target); else if (X.what == FA_EXC) p(vf::make_exc(55)); else p(cocls::drop); }
     if (X.src_prom_void) { auto &p = *X.src_prom_void; if (X.what == FA_VALUE) p(); else if (X.what == FA_EXC) p(vf::make_exc(55)); else p(cocls::drop); }
     if (X.src_prom_tracked) { auto &p = *X.src_prom_tracked; if (X.what == FA_VALUE) p((uint64_t)AD_SRC_VALUE); else if (X.what == FA_EXC) p(vf::make_exc(55)); else p(cocls::drop); }
 }
@@ -112,15 +124,40 @@ template <typename R> void ad_record_await_result(ad_round &X, R res) {
     X.cb_calls.fetch_add(1, std::memory_order_relaxed);
 }
 
-// registers the adapter (thread 0)
-inline void ad_register(ad_round &X) {
+// adapters whose awaited operation yields an int: the operation is given as a functor returning future<int> or future<int&>
+// (the functor is handed over as an rvalue: the library keeps lvalue callables by reference, see DESIGN 8.3a)
+template <typename SrcFn> void ad_register_int(ad_round &X, SrcFn src) {
     switch (X.adapter) {
     case AD_CALLBACK_AWAIT:
-        cocls::callback_await<cocls::future<int>>([&X](cocls::await_result<int> r) { ad_record_await_result(X, r); }, [&X] { return ad_make_src(X); });
+        cocls::callback_await<cocls::future<int>>([&X](cocls::await_result<int> r) { ad_record_await_result(X, r); }, SrcFn(src));
         break;
     case AD_CALLBACK_AWAIT_ALLOC:
-        cocls::callback_await_alloc<vf::mon_storage, cocls::future<int>>(X.storage, [&X](cocls::await_result<int> r) { ad_record_await_result(X, r); }, [&X] { return ad_make_src(X); });
+        cocls::callback_await_alloc<vf::mon_storage, cocls::future<int>>(X.storage, [&X](cocls::await_result<int> r) { ad_record_await_result(X, r); }, SrcFn(src));
         break;
+    case AD_CONV_MEMBER: X.out.reset(new cocls::future<int>(X.c_member << SrcFn(src))); break;
+    case AD_CONV_MEMBER_PROMISE: X.out.reset(new cocls::future<int>(X.c_member_promise << SrcFn(src))); break;
+    case AD_CONV_FREE: X.out.reset(new cocls::future<int>(X.c_free << SrcFn(src))); break;
+    case AD_CONV_FREE_CTX: X.out.reset(new cocls::future<int>(X.c_free_ctx << SrcFn(src))); break;
+    case AD_CONV_VIA_PROMISE: {
+        X.out = std::make_unique<cocls::future<int>>();
+        X.c_member(X.out->get_promise()) << SrcFn(src);
+        break;
+    }
+    case AD_CALL_FN_AWAITER: X.c_callfn << SrcFn(src); break;
+    default: break;
+    }
+}
+inline bool ad_int_source(int adapter) {
+    return adapter == AD_CALLBACK_AWAIT || adapter == AD_CALLBACK_AWAIT_ALLOC || adapter == AD_CONV_MEMBER || adapter == AD_CONV_MEMBER_PROMISE || adapter == AD_CONV_FREE ||
+           adapter == AD_CONV_FREE_CTX || adapter == AD_CONV_VIA_PROMISE || adapter == AD_CALL_FN_AWAITER;
+}
+// registers the adapter (thread 0)
+inline void ad_register(ad_round &X) {
+    if (ad_int_source(X.adapter)) {
+        if (X.ref_source) ad_register_int(X, [&X] { return ad_make_src_ref(X); }); else ad_register_int(X, [&X] { return ad_make_src(X); });
+        return;
+    }
+    switch (X.adapter) {
     case AD_MAKE_PROMISE:
     case AD_MAKE_PROMISE_STORAGE: {
         auto cb = [&X](cocls::future<int> &f) { X.seen = read_future(f, nullptr, 0); X.cb_calls.fetch_add(1, std::memory_order_relaxed); };
@@ -131,19 +168,10 @@ inline void ad_register(ad_round &X) {
         if (X.timing == AT_BEFORE) { ad_resolve(X); X.src_prom.reset(); }
         break;
     }
+    default: break;
     case AD_DISCARD: cocls::discard([&X] { return ad_make_src_tracked(X); }); break;
-    case AD_CONV_MEMBER: X.out.reset(new cocls::future<int>(X.c_member << [&X] { return ad_make_src(X); })); break;
     case AD_CONV_MEMBER_VOID: X.out.reset(new cocls::future<int>(X.c_member_void << [&X] { return ad_make_src_void(X); })); break;
-    case AD_CONV_MEMBER_PROMISE: X.out.reset(new cocls::future<int>(X.c_member_promise << [&X] { return ad_make_src(X); })); break;
     case AD_CONV_MEMBER_VOID_PROMISE: X.out.reset(new cocls::future<int>(X.c_member_void_promise << [&X] { return ad_make_src_void(X); })); break;
-    case AD_CONV_FREE: X.out.reset(new cocls::future<int>(X.c_free << [&X] { return ad_make_src(X); })); break;
-    case AD_CONV_FREE_CTX: X.out.reset(new cocls::future<int>(X.c_free_ctx << [&X] { return ad_make_src(X); })); break;
-    case AD_CONV_VIA_PROMISE: {
-        X.out = std::make_unique<cocls::future<int>>();
-        X.c_member(X.out->get_promise()) << [&X] { return ad_make_src(X); };
-        break;
-    }
-    case AD_CALL_FN_AWAITER: X.c_callfn << [&X] { return ad_make_src(X); }; break;
     }
 }
 
@@ -166,7 +194,8 @@ inline void adapter_matrix(const vf::opts &o, vf::report &R, vf::team &T, uint64
         bool conv_from_int = X.adapter == AD_CONV_MEMBER || X.adapter == AD_CONV_MEMBER_PROMISE || X.adapter == AD_CONV_FREE || X.adapter == AD_CONV_FREE_CTX || X.adapter == AD_CONV_VIA_PROMISE;
         X.conv_throws = conv_from_int && X.what == FA_VALUE && r.chance(1, 4);
         X.in_coroutine_mode = (rn / (uint64_t)(AD_NKINDS * 3 * 3)) % 2 == 1;
-        std::string desc = std::string(X.in_coroutine_mode ? "[registered in coroutine mode] " : "") + ad_name(X.adapter) + " / " + fa_name(X.what) + (X.conv_throws ? " (converter throws)" : "") + " / " + at_name(X.timing);
+        X.ref_source = ad_int_source(X.adapter) && r.chance(1, 3);
+        std::string desc = std::string(X.in_coroutine_mode ? "[registered in coroutine mode] " : "") + ad_name(X.adapter) + (X.ref_source ? " [operation returns future<int&>]" : "") + " / " + fa_name(X.what) + (X.conv_throws ? " (converter throws)" : "") + " / " + at_name(X.timing);
         std::string plan = T.plan_by([&](int tid) -> std::pair<const int *, int> { return tid == 0 ? std::make_pair(sites0, 7) : std::make_pair(sites1, 7); }, r, 2);
         vf::set_crash_ctx(R.prop.c_str(), "adapter_matrix", o.seed, rn, (desc + "; " + plan).c_str());
         if (X.timing == AT_CONCURRENT) {
@@ -181,7 +210,7 @@ inline void adapter_matrix(const vf::opts &o, vf::report &R, vf::team &T, uint64
             if (X.in_coroutine_mode) cocls::coro_queue::install_queue_and_call([&] { ad_register(X); }); else ad_register(X);
             if (X.timing == AT_LATER_SAME_THREAD) ad_resolve(X);
         }
-        X.src_prom.reset(); X.src_prom_void.reset(); X.src_prom_tracked.reset();
+        X.src_prom.reset(); X.src_prom_void.reset(); X.src_prom_tracked.reset(); X.src_prom_ref.reset();
         R.cases++;
         // ---------------- oracles
         std::string err;
@@ -211,7 +240,7 @@ inline void adapter_matrix(const vf::opts &o, vf::report &R, vf::team &T, uint64
             desc += std::string(" ; again on the same object: ") + fa_name(X.what) + (X.conv_throws ? " (converter throws)" : "") + " / " + at_name(X.timing);
             ad_register(X);
             if (X.timing == AT_LATER_SAME_THREAD) ad_resolve(X);
-            X.src_prom.reset(); X.src_prom_void.reset(); X.src_prom_tracked.reset();
+            X.src_prom.reset(); X.src_prom_void.reset(); X.src_prom_tracked.reset(); X.src_prom_ref.reset();
             judge();
             if (!err.empty()) err = "second use of the adapter object: " + err;
         }
